@@ -64,6 +64,42 @@ pub enum Op {
     /// a second thread loads the key while this one inserts it
     RaceLoadInsert(u8, u8),
     Barrier,
+    /// get_or_insert of the reloadable leaf `.0` made by the loader of a reloadable compound (loaded with
+    /// load_owned if `.2`), i.e. while the dependencies of that compound are being recorded
+    InsertInLoader(u8, u8, bool),
+}
+
+/// What the next run of `Inserter`'s loader inserts (id of a reloadable leaf, value); taken by that run.
+static ARMED: std::sync::Mutex<Option<(String, String)>> = std::sync::Mutex::new(None);
+/// What that get_or_insert returned.
+static INSERTED: std::sync::Mutex<Option<String>> = std::sync::Mutex::new(None);
+
+/// A reloadable compound whose loader stores a value with get_or_insert when it is armed (only during the
+/// `InsertInLoader` step: when the reloader runs it again later it does nothing).
+pub struct Inserter;
+impl assets_manager::Compound for Inserter {
+    fn load(cache: AnyCache, _id: &assets_manager::SharedString) -> Result<Self, assets_manager::BoxedError> {
+        let armed = ARMED.lock().unwrap_or_else(|e| e.into_inner()).take();
+        if let Some((id, v)) = armed {
+            let got = cache.get_or_insert(&id, Leaf(v)).read().0.clone();
+            *INSERTED.lock().unwrap_or_else(|e| e.into_inner()) = Some(got);
+        }
+        Ok(Inserter)
+    }
+}
+
+/// Returns what the get_or_insert made inside the loader returned (None if the loader did not run).
+fn insert_in_loader(c: AnyCache, id: &str, v: String, owned: bool, step: usize) -> Option<String> {
+    *INSERTED.lock().unwrap_or_else(|e| e.into_inner()) = None;
+    *ARMED.lock().unwrap_or_else(|e| e.into_inner()) = Some((id.to_string(), v));
+    let cid = format!("inserter{step}");
+    if owned {
+        drop(c.load_owned::<Inserter>(&cid));
+    } else {
+        drop(c.load::<Inserter>(&cid));
+    }
+    *ARMED.lock().unwrap_or_else(|e| e.into_inner()) = None;
+    INSERTED.lock().unwrap_or_else(|e| e.into_inner()).take()
 }
 
 #[derive(Debug, Clone, Serialize, Deserialize)]
@@ -223,6 +259,7 @@ struct Model {
     edits: u32,
     reloads_seen: u32,
     frozen_after_reuse: bool,
+    inserted_in_loader_on_known_key: bool,
 }
 
 /// Runs the history on a cache type (AssetCache or LocalAssetCache share the same method names).
@@ -269,6 +306,26 @@ macro_rules! drive {
                             $model.frozen_after_reuse = true;
                         }
                         $model.entries.insert((*k, *n), Entry { value: val, frozen: true, got });
+                    }
+                }
+                Op::InsertInLoader(n, v, owned) => {
+                    let id = id_of(K::Leaf, *n);
+                    let was = $model.entries.contains_key(&(K::Leaf, *n));
+                    let Some(val) = insert_in_loader($cache.as_any_cache(), &id, format!("ins{v}"), *owned, step) else {
+                        $out.fail("harness", format!("step {step}: the loader of a compound that was never loaded before did not run"));
+                        break;
+                    };
+                    if !was {
+                        if val != format!("ins{v}") {
+                            $out.fail("get-or-insert-wrong-value", format!("step {step}: get_or_insert (made by the loader of a compound) on an absent key returned {val:?}"));
+                            break;
+                        }
+                        let got = typed_meta($cache.as_any_cache(), K::Leaf, &id).and_then(|m| m.2);
+                        if known_keys.contains(n) {
+                            $model.frozen_after_reuse = true;
+                            $model.inserted_in_loader_on_known_key = true;
+                        }
+                        $model.entries.insert((K::Leaf, *n), Entry { value: val, frozen: true, got });
                     }
                 }
                 Op::Remove(k, n) => {
@@ -451,6 +508,7 @@ fn op_strategy() -> impl Strategy<Value = Op> {
         6 => (0..NKEYS, 1u16..1000).prop_map(|(n, v)| Op::Edit(n, v)),
         1 => (0..NKEYS, 50u8..100).prop_map(|(n, v)| Op::RaceLoadInsert(n, v)),
         5 => Just(Op::Barrier),
+        2 => (0..NKEYS, 100u8..150, any::<bool>()).prop_map(|(n, v, owned)| Op::InsertInLoader(n, v, owned)),
     ]
 }
 
@@ -462,7 +520,7 @@ impl Prop for C10 {
     fn rule(&self) -> String {
         "cases = (cache constructor: with_source on a hot-reloadable source (reloader) | without_hot_reloading | with_source on a source without hot-reloading support | with_source on a source whose configure_hot_reloading fails after having stored the EventSender | LocalAssetCache; \
          history over 3 ids x kinds {reloadable asset, reloadable compound, opt-out asset, opt-out compound, Storable, Arc of an opt-out asset, Arc of a reloadable asset, OnceInitCell<U, T> and OnceInitCell<Option<U>, T> around an opt-out asset} of load / load_owned / get_or_insert / remove / take / clear, edits of the files behind the ids (all notified), \
-         a load racing a get_or_insert, and barriers; the reloadable compound of number n loads - and thereby caches - the reloadable leaf of number n). At every barrier every frozen entry (created by get_or_insert, or of an opt-out type, or in a cache without reloader) must hold exactly the value it was created with, \
+         a load racing a get_or_insert, a get_or_insert made by the loader of a reloadable compound (loaded with load or load_owned, i.e. while its dependencies are recorded), and barriers; the reloadable compound of number n loads - and thereby caches - the reloadable leaf of number n). At every barrier every frozen entry (created by get_or_insert, or of an opt-out type, or in a cache without reloader) must hold exactly the value it was created with, \
          report ReloadId::NEVER and no reload, and Handle::get() must return the same address and content; a leaf that the history did not load is in the cache only if a cached reloadable compound that loads it was reloaded. \
          non-trivial = a frozen entry created by get_or_insert on a key the reloader already knew (loaded / load_owned before, then removed or cleared) with a later notified edit; distinct = different canonical JSON"
             .into()
@@ -499,7 +557,7 @@ impl Prop for C10 {
         let hot = c.ctor == Ctor::WithReloader;
         let src = MemSource::new(hot);
         populate(&src);
-        let mut model = Model { entries: BTreeMap::new(), has_reloader: hot, edits: 0, reloads_seen: 0, frozen_after_reuse: false };
+        let mut model = Model { entries: BTreeMap::new(), has_reloader: hot, edits: 0, reloads_seen: 0, frozen_after_reuse: false, inserted_in_loader_on_known_key: false };
         match c.ctor {
             Ctor::WithReloader | Ctor::SourceWithoutSupport => {
                 let mut cache = AssetCache::with_source(src.handle());
@@ -534,6 +592,9 @@ impl Prop for C10 {
             out.nontrivial = true;
             out.label("frozen-entry-on-known-key");
         }
+        if model.inserted_in_loader_on_known_key && model.edits > 0 && hot {
+            out.label("inserted-by-a-loader-on-known-key");
+        }
         if model.reloads_seen > 0 {
             out.label("live-reloads-observed");
         }
@@ -542,6 +603,6 @@ impl Prop for C10 {
     }
 
     fn required_labels(&self) -> Vec<&'static str> {
-        vec!["frozen-entry-on-known-key", "live-reloads-observed", "Local", "WithoutHotReloading", "ConfigureFails"]
+        vec!["frozen-entry-on-known-key", "inserted-by-a-loader-on-known-key", "live-reloads-observed", "Local", "WithoutHotReloading", "ConfigureFails"]
     }
 }
